@@ -53,9 +53,16 @@ New == [cells |-> EmptyCells, ovr |-> FALSE, oob |-> FALSE]
 SetAllowOutOfBounds(d, b) == [d EXCEPT !.oob = b]
 \* set_allow_overdraw, mod.rs:277
 SetAllowOverdraw(d, b) == [d EXCEPT !.ovr = b]
-\* get_pixel, mod.rs:282 (meaningful for points inside the display only: outside it
-\* indexes another cell or panics, which property C20 does not cover)
+\* get_pixel, mod.rs:282-293 (after the repair D25): None for every point that is not on the display
 GetPixel(d, p) == Get(d.cells, p)
+GetPixelT(d, p) == IF InRect(DisplayArea, p) THEN Get(d.cells, p) ELSE NoColour
+\* ... and before the repair: pixels[x as usize + y as usize * SIZE] without a bounds check - a point right of the
+\* display reads the cell of the next row with the same linear index; negative coordinates or an index beyond
+\* the array panic (PanicV stands for that)
+PanicV == -99
+GetPixelPinnedT(d, p) ==
+  LET i == p[1] + p[2] * SIZE IN
+  IF p[1] < 0 \/ p[2] < 0 \/ i >= SIZE * SIZE THEN PanicV ELSE Get(d.cells, <<i % SIZE, i \div SIZE>>)
 
 \* set_pixel, mod.rs:293-302: no overdraw check; asserts the point is inside
 SetPixel(d, p, c) ==
